@@ -87,7 +87,7 @@ RowsOf(rsel, n) ==
   CASE Tag(rsel) = "int"   -> LET p == NormInt(n, rsel[2]) IN IF p < 0 THEN <<"refused", <<>>>> ELSE OK(<<p>>)
     [] Tag(rsel) = "slice" -> IF rsel[4] = 0 THEN <<"unspec", <<>>>> ELSE OK(SliceIdx(n, rsel[2], rsel[3], rsel[4]))
     [] Tag(rsel) = "list"  -> LET q == [k \in DOMAIN rsel[2] |-> NormInt(n, rsel[2][k])] IN
-                                 IF \E k \in DOMAIN q : q[k] < 0 THEN <<"unspec", <<>>>> ELSE OK(q)
+                                 IF \E k \in DOMAIN q : q[k] < 0 THEN <<"refused", <<>>>> ELSE OK(q)    \* an integer in a list is an integer row index
     [] Tag(rsel) = "mask"  -> IF Len(rsel[2]) # n THEN <<"unspec", <<>>>> ELSE OK(Ones(rsel[2]))
     [] Tag(rsel) = "all"   -> OK(Range(n))
     [] OTHER -> <<"unspec", <<>>>>
@@ -275,13 +275,18 @@ Scan(name, arr, n) ==
 (***************************************************************************)
 ConcatRows(arrs) == FlatSeq([k \in DOMAIN arrs |-> Rows(arrs[k])])
 ConcatCols(arrs) == [r \in DOMAIN Rows(arrs[1]) |-> FlatSeq([k \in DOMAIN arrs |-> Rows(arrs[k])[r]])]
-SameDT(arrs) == \A k \in DOMAIN arrs : DT(arrs[k]) = DT(arrs[1])
+RECURSIVE CatDTFrom(_, _, _)
+CatDTFrom(arrs, k, acc) == IF k > Len(arrs) THEN acc ELSE CatDTFrom(arrs, k + 1, ResultType(acc, DT(arrs[k])))
+CatDT(arrs) == CatDTFrom(arrs, 2, DT(arrs[1]))                      \* numpy promotes the operands to their common dtype
+CatCastOK(arrs) == \A k \in DOMAIN arrs : \A r \in DOMAIN Rows(arrs[k]) : \A c \in DOMAIN Rows(arrs[k])[r] : CastOK(DT(arrs[k]), CatDT(arrs), Rows(arrs[k])[r][c])
+Promoted(arrs) == [k \in DOMAIN arrs |-> <<CatDT(arrs), MapCells(Rows(arrs[k]), LAMBDA v : Cast(DT(arrs[k]), CatDT(arrs), v))>>]
 Concat(arrs, axis) ==
-  IF arrs = <<>> \/ ~SameDT(arrs) THEN UNSPEC
-  ELSE IF axis = 0 THEN <<"ragged", DT(arrs[1]), ConcatRows(arrs)>>
+  IF arrs = <<>> THEN UNSPEC
+  ELSE IF ~CatCastOK(arrs) THEN UNSPEC
+  ELSE IF axis = 0 THEN <<"ragged", CatDT(arrs), ConcatRows(Promoted(arrs))>>
   ELSE IF \E k \in DOMAIN arrs : NRows(arrs[k]) # NRows(arrs[1]) THEN UNSPEC
   ELSE IF NRows(arrs[1]) = 0 THEN UNSPEC
-  ELSE <<"ragged", DT(arrs[1]), ConcatCols(arrs)>>
+  ELSE <<"ragged", CatDT(arrs), ConcatCols(Promoted(arrs))>>
 Like(kind, arr, dt) ==
   LET d == IF dt = "same" THEN DT(arr) ELSE dt IN
   CASE kind = "zeros" -> <<"ragged", d, MapCells(Rows(arr), LAMBDA v : Zero(d))>>
